@@ -331,12 +331,12 @@ PROPERTIES["C12"] = dict(
         kern("C12.srchash", "src/request.rs", "h_request.rs", "c12_srchash", [Q], 60, 1200, 10, ["request::Request::preparsed", "request::Request::from_detailed_parameters"],
              "source host 0..=4 printable ASCII bytes", [("hb", B(4)), ("hl", "usize")], "c12_srchash",
              asserts="source hashes absent iff host empty; else hash(full host) followed by hash of the suffix after each '.' that is not the last byte, nothing else", stubs=[PACK]),
-        kern("C12.presplit_t", "src/request.rs", "h_request.rs", "c12_presplit_t", [T], 430, 2400, 16, ["request::Request::preparsed", "request::Request::from_detailed_parameters"],
-             "every URL string 0..=4 printable ASCII bytes", [("ub", B(4)), ("ul", "usize")], "c12_presplit",
-             asserts="as C12.presplit", stubs=[PACK]),
+        kern("C12.presplit_t", "src/request.rs", "h_request.rs", "c12_presplit_t", [T], 120, 2400, 12, ["request::Request::preparsed", "request::Request::from_detailed_parameters"],
+             "every URL string 0..=16 printable ASCII bytes", [("ub", B(16)), ("ul", "usize")], "c12_presplit",
+             asserts="as C12.presplit", stubs=["utils::tokenize_pooled -> no-op (URL tokens do not feed the classification)"]),
         kern("C12.presplit", "src/request.rs", "h_request.rs", "c12_presplit", [Q], 60, 1500, 12, ["request::Request::preparsed", "request::Request::from_detailed_parameters"],
-             "every URL string 0..=3 printable ASCII bytes", [("ub", B(3)), ("ul", "usize")], "c12_presplit",
-             asserts="the scheme is the URL prefix before the first ':' (empty when there is none); supported <=> that prefix in {'',http,https,ws,wss}; ws/wss force the websocket type", stubs=[PACK]),
+             "every URL string 0..=10 printable ASCII bytes", [("ub", B(10)), ("ul", "usize")], "c12_presplit",
+             asserts="the scheme is the URL prefix before the first ':' (empty when there is none); supported <=> that prefix in {'',http,https,ws,wss}; ws/wss force the websocket type", stubs=["utils::tokenize_pooled -> no-op (URL tokens do not feed the classification)"]),
         kern("C12.srchash_t", "src/request.rs", "h_request.rs", "c12_srchash_t", [T], 260, 2400, 12, ["request::Request::preparsed"], "source host 0..=5 bytes", [("hb", B(5)), ("hl", "usize")], "c12_srchash",
              asserts="as C12.srchash", stubs=[PACK]),
     ],
